@@ -29,7 +29,7 @@ REQUIRED = ["Sqfs.C09." + t for t in (
     "inv_init", "inv_step", "inv_reachable", "run_reachable", "strict_reachable", "fifo", "fifo_run", "at_most_once",
     "returned_at_most_once", "no_item_lost", "exactly_once", "ctx_exclusive", "ctx_owner", "no_lost_wakeup", "no_deadlock",
     "no_deadlock_flag", "api_returns", "failure_recorded", "failure_sticky", "failure_reported_submit", "failure_reported_get_status",
-    "failure_reported_dequeue")]
+    "failure_reported_dequeue", "healthy_status_zero", "dequeue_null_only_if", "refines_serial", "refines_serial_prefix")]
 WITNESS_MODULE = "Sqfs.Witness.C09"
 WITNESS_REQUIRED = ["Sqfs.Witness.C09." + t for t in (
     "schedule_is_strict_execution", "deadlock_after_failure", "hang_forever", "no_deadlock_fails_for_pinned_code",
@@ -143,9 +143,9 @@ def plan(ctx):
           ("bounded", 2, 2, "all-then-all", 2 if q else 3, 0, 4000 if q else 10 ** 6), ("bounded", 2, 2, "interleaved", 2, 0, 3000 if q else 10 ** 6),
           ("bounded", 2, 2, "early-destroy", 2, 0, 2000 if q else 10 ** 6),
           ("bounded", 2, 3, "all-then-all", 1 if q else 2, 0, 3000 if q else 60000), ("bounded", 2, 3, "status+extra-dequeue", 1, 1, 2000 if q else 40000),
-          ("bounded", 3, 3, "all-then-all", 1, 0, 3000 if q else 60000), ("bounded", 3, 2, "interleaved", 1, 0, 2000 if q else 40000),
-          ("bounded", 2, 5, "all-then-all", 1, 0, 2000 if q else 40000), ("bounded", 3, 5, "all-then-all", 0 if q else 1, 0, 2000 if q else 40000),
-          ("bounded", 3, 4, "interleaved", 1, 0, 1500 if q else 30000), ("bounded", 3, 5, "no-destroy", 0, 1, 1000 if q else 20000)]
+          ("bounded", 3, 3, "all-then-all", 1, 0, 3000 if q else 15000), ("bounded", 3, 2, "interleaved", 1, 0, 2000 if q else 15000),
+          ("bounded", 2, 5, "all-then-all", 1, 0, 2000 if q else 40000), ("bounded", 3, 5, "all-then-all", 0 if q else 1, 0, 2000 if q else 15000),
+          ("bounded", 3, 4, "interleaved", 1, 0, 1500 if q else 12000), ("bounded", 3, 5, "no-destroy", 0, 1, 1000 if q else 20000)]
     return P
 
 
@@ -374,6 +374,100 @@ def threaded_vs_serial(ctx, hserial, scripts, impl_lines, stats):
     stats["disagreements"] += nb
 
 
+def bp_workloads(ctx, count):
+    """block-processor workloads: (line-suffix, has_failing_block)"""
+    out = []
+    for _ in range(count):
+        bs = ctx.rng.choice([4096, 4096, 8192])
+        nf = ctx.rng.randint(1, 12)
+        fail = ctx.rng.random() < 0.4
+        files = []
+        for i in range(nf):
+            kind = ctx.rng.choice("rrrcczd")
+            size = ctx.rng.choice([0, 1, 100, bs - 1, bs, bs + 1, 2 * bs, 3 * bs + 17, ctx.rng.randint(1, 6 * bs)])
+            files.append("%d:%s" % (size, kind))
+        if fail:
+            files.insert(ctx.rng.randrange(len(files) + 1), "%d:e" % ctx.rng.choice([bs, 2 * bs + 5, 300, 4 * bs]))
+            # a failing *fragment* (< block size) is never compressed by a worker; make sure one full block fails
+            if all(int(f.split(":")[0]) < bs for f in files if f.endswith(":e")):
+                files.append("%d:e" % bs)
+        out.append(("%d %s" % (bs, " ".join(files)), fail))
+    return out
+
+
+def compare_block_processor(ctx, rep, stats):
+    """the real block processor (frontend/backend/block writer) on the controlled pool under seeded random schedules:
+    never dead-locks; a failing compressor is reported, not hung on; failure-free output = serial-pool output"""
+    inc = ["-include", str(vlib.HARNESS / "shim_sched.h")]
+    lib = ctx.build_lib("shim", flags=inc)
+    h = ctx.cc("h_c09bp", ["h_c09bp.c", "sched.c"], flags=inc, libs=[str(lib)] + vlib.CODEC_LIBS)
+    libs = ctx.build_lib("serialpool", serial_pool=True)
+    hs = ctx.cc("h_c09bp_serial", ["h_c09bp.c", "sched.c"], libs=[str(libs)] + vlib.CODEC_LIBS)
+    wl = bp_workloads(ctx, 80 if ctx.quick() else 1500)
+    lines, meta = [], []
+    for w, fail in wl:
+        for _ in range(20 if ctx.quick() else 30):
+            n, bl = ctx.rng.choice([1, 2, 2, 3, 3, 4, 8]), ctx.rng.choice([3, 3, 4, 5, 8, 16])
+            lines.append("bp %d %d %d %s" % (n, bl, ctx.rng.randrange(1 << 30), w))
+            meta.append((w, fail))
+    ref_lines = ["bp 1 3 0 %s" % w for w, _ in wl]
+    t0 = time.time()
+    impl, problems = run_parallel(ctx, [str(h)], lines, 600)
+    ref, rproblems = run_parallel(ctx, [str(hs)], ref_lines, 600, pin=False)
+    for pb in (problems + rproblems)[:2]:
+        ctx.violation("crash-bp:" + pb["script"], "block processor on the controlled pool aborted / hung (rc=%s): %s :: %s" % (
+            pb["rc"], pb["script"], pb["stderr"][-300:]), {"script": pb["script"], "stderr": pb["stderr"]})
+    refmap = {w: dict(kv.split("=") for kv in r.split()) for (w, _), r in zip(wl, ref) if r.startswith("rc=")}
+    bad = d1 = nfail = 0
+    for l, (w, fail), a in zip(lines, meta, impl):
+        if not a.startswith("rc="):
+            continue
+        r, want = dict(kv.split("=") for kv in a.split()), refmap.get(w)
+        nfail += fail
+        why = None
+        if r["mtx"] != "0":
+            why = "a mutex was held at a scheduling point"
+        elif r["dl"] == "1":
+            if rep == 0 and fail:
+                d1 += 1                       # D1 seen through the block processor (pinned code only)
+            else:
+                why = "dead-lock: no runnable thread while the block processor was inside the pool"
+        elif want is None:
+            continue
+        elif fail:
+            if r["rc"] == "0" or r["rc"] != want["rc"]:
+                why = "compressor failure not reported: rc=%s, serial pool reports rc=%s" % (r["rc"], want["rc"])
+        elif (r["rc"], r["sz"], r["out"], r["ino"]) != (want["rc"], want["sz"], want["out"], want["ino"]):
+            why = "failure-free output differs from the serial pool's (threaded %s / serial %s)" % (a, " ".join("%s=%s" % kv for kv in want.items()))
+        if why:
+            bad += 1
+            if bad <= 3:
+                ctx.violation("bp:" + l, "block processor on the controlled pool: %s; workload/schedule: %s" % (why, l),
+                              {"bp_line": l, "impl": a, "serial": want})
+    stats["bp"] = {"workloads": len(wl), "schedules": len(lines), "with_failing_block": nfail, "d1_deadlocks_pinned_code": d1,
+                   "violations": bad, "wall_s": round(time.time() - t0, 1)}
+    stats["disagreements"] += bad
+
+
+def compare_create_failure(ctx, harness, stats):
+    """pthread_create failing inside thread_pool_create (k-th of n): must return NULL with every created worker joined"""
+    lines = ["cfail %d %d %d" % (n, k, ctx.rng.randrange(1 << 30)) for n in range(1, 7) for k in range(1, n + 1)
+             for _ in range(10 if ctx.quick() else 200)]
+    impl, problems = run_parallel(ctx, [str(harness)], lines, 300)
+    bad = 0
+    for pb in problems[:2]:
+        ctx.violation("crash-cfail:" + pb["script"], "thread_pool_create with a failing pthread_create aborted / hung: %s :: %s" % (
+            pb["script"], pb["stderr"][-300:]), {"cfail_line": pb["script"], "stderr": pb["stderr"]})
+    for l, a in zip(lines, impl):
+        if a != "<no output>" and not (a.startswith("null=1 dl=0 alive=0 ") and a.endswith("mtx=0")):
+            bad += 1
+            if bad <= 2:
+                ctx.violation("cfail:" + l, "thread_pool_create with a failing pthread_create (%s) gives %s, expected NULL, no dead-lock, "
+                              "all workers joined" % (l, a), {"cfail_line": l, "impl": a})
+    stats["create_failure_runs"] = len(lines)
+    stats["disagreements"] += bad
+
+
 def probe_variant(ctx, harness):
     """replay the D1 witness on the real code: 0 = pinned behaviour (dead-lock), 1 = repaired (NULL), None = neither"""
     line = "run 0 1 %s %s" % (WITNESS_RC, WITNESS_CHOICES)
@@ -452,6 +546,8 @@ def run(ctx):
                 guided += rand_scripts(ctx, rep, n, rc, ctx.rng.randrange(1 << 30), nrand, ctx.rng.choice([10, 30, 60]), ctx.rng.choice([0, 3, 10]), ops)
     compare(ctx, harness, rep, guided, stats, "guided-random")
     compare(ctx, harness, rep, random_long(ctx, rep, 1500 if ctx.quick() else 30000, 8, 40, 300), stats, "unguided-random")
+    compare_block_processor(ctx, rep, stats)
+    compare_create_failure(ctx, harness, stats)
     ctx.cov.update({
         "evaluations": stats["scripts"],
         "steps": stats["steps"],
@@ -465,6 +561,8 @@ def run(ctx):
         "enumerations": enum_cfgs,
         "histogram_scripts_reaching": stats["hist"],
         "d1_deadlock_schedules": stats["d1_deadlocks"],
+        "block_processor_on_controlled_pool": stats.get("bp"),
+        "create_failure_runs": stats.get("create_failure_runs", 0),
         "serial_pool_scripts": stats.get("serial_scripts", 0),
         "threaded_vs_serial_return_value_comparisons": stats.get("threaded_vs_serial", 0),
         "disagreements_checked": stats["disagreements"],
@@ -485,6 +583,27 @@ def run(ctx):
 def replay(ctx, path):
     body = json.loads(open(path).read())
     rp = body.get("replay", {})
+    if "bp_line" in rp:
+        inc = ["-include", str(vlib.HARNESS / "shim_sched.h")]
+        lib = ctx.build_lib("shim", flags=inc)
+        h = ctx.cc("h_c09bp", ["h_c09bp.c", "sched.c"], flags=inc, libs=[str(lib)] + vlib.CODEC_LIBS)
+        impl, problems = run_parallel(ctx, [str(h)], [rp["bp_line"]], 120)
+        print("workload/schedule:", rp["bp_line"])
+        print("real code        :", impl[0], problems[:1])
+        print("serial (recorded):", rp.get("serial"))
+        r = dict(kv.split("=") for kv in impl[0].split()) if impl[0].startswith("rc=") else {}
+        want = rp.get("serial") or {}
+        fail = ":e" in rp["bp_line"]
+        bad = bool(problems) or r.get("dl") == "1" or r.get("mtx") == "1" or \
+            (fail and r.get("rc") == "0") or (not fail and want and any(r.get(k) != want.get(k) for k in ("rc", "sz", "out", "ino")))
+        print("violated:", bad)
+        return 1 if bad else 0
+    if "cfail_line" in rp:
+        harness = harness_build(ctx)
+        impl, problems = run_parallel(ctx, [str(harness)], [rp["cfail_line"]], 60)
+        print(rp["cfail_line"], "->", impl[0], problems[:1])
+        ok = impl[0].startswith("null=1 dl=0 alive=0 ") and impl[0].endswith("mtx=0") and not problems
+        return 0 if ok else 1
     if "script" not in rp:
         print("replay file names a broken obligation, no schedule to replay:", json.dumps(rp)[:500])
         return 1
